@@ -387,6 +387,60 @@ impl Gen {
         }
     }
 
+    /// Biased pattern: an entity the clients already hold re-points its (mutable, mapped) reference to an
+    /// entity spawned in the same tick and loses a component in that tick, so the new reference travels in
+    /// the update message as an in-place mutation, possibly ahead of the target's own spawn record.
+    fn recipe_repoint_with_removal(&mut self) {
+        if self.prof.slots < 3 {
+            return;
+        }
+        let mut order: Vec<u8> = (0..self.prof.slots).collect();
+        for i in (1..order.len()).rev() {
+            let j = self.r.below(i + 1);
+            order.swap(i, j);
+        }
+        let (a, b, c) = (order[0], order[1], order[2]);
+        for s in [a, b] {
+            if !self.live[s as usize] {
+                self.steps.push(Step::Spawn { slot: s, kinds: vec![Kind::A, Kind::B], marker: true });
+                self.live[s as usize] = true;
+            }
+        }
+        self.steps.push(Step::Insert { slot: a, kind: Kind::B, extra: 0 });
+        self.steps.push(Step::Point { slot: a, kind: Kind::Ref, target: b });
+        if self.live[c as usize] {
+            self.steps.push(Step::Despawn { slot: c });
+            self.live[c as usize] = false;
+        }
+        for _ in 0..self.r.range(1, 2) {
+            self.steps.push(Step::ServerFrame { tick: true, dt_ms: 16 });
+            for cl in 0..self.prof.clients {
+                self.network(cl);
+                self.steps.push(Step::ClientFrame { client: cl, dt_ms: 16 });
+                self.uplink(cl);
+            }
+        }
+        let n = self.r.range(0, 2);
+        let mut kinds = vec![];
+        for _ in 0..n {
+            let k = self.kind();
+            if !kinds.contains(&k) {
+                kinds.push(k);
+            }
+        }
+        let mut ops = vec![
+            Step::Remove { slot: a, kind: Kind::B },
+            Step::Spawn { slot: c, kinds, marker: true },
+        ];
+        if self.r.chance(50) {
+            ops.swap(0, 1);
+        }
+        self.steps.extend(ops);
+        self.live[c as usize] = true;
+        self.steps.push(Step::Point { slot: a, kind: Kind::Ref, target: c });
+        self.struct_op(a);
+    }
+
     /// Connection life-cycle events with the given per-call probabilities (%): a client session ending
     /// (either end first, the other noticing later) and a server stop/start with clients that keep
     /// running and receiving for a while.
@@ -715,6 +769,9 @@ impl Gen {
             }
             if self.focus == Focus::Packing && self.prof.app.sync_related && self.r.chance(10) {
                 self.recipe_join_groups();
+            }
+            if self.en_refs && matches!(self.focus, Focus::Replication | Focus::Visibility) && self.r.chance(6) {
+                self.recipe_repoint_with_removal();
             }
             if self.en_cevents && self.r.chance(25) {
                 self.client_emit();
